@@ -263,6 +263,7 @@ func runRecord() {
 	gen(nil)
 	runLengthRows(fmt.Sprintf("RecordPattern/InReverse on rows whose runs end on storage word boundaries: all sequences of <=%d runs from {1,31,32,33,64} (rows up to %d px), both polarities, starts at every run boundary +-1", K2, 64*K2), seqs)
 	runWideRows()
+	runGiantRow()
 }
 
 // runWideRows: rows of 2040 .. 65536+ pixels: one long run in front of (or behind) every sequence of
@@ -729,6 +730,13 @@ func replay() {
 		w, inf, b := model(c.Counters, c.Pattern, c.Limit)
 		fmt.Printf("replay %+v: library=%v model=%v inf=%v borderline=%v\n", c, got, w, inf, b)
 		checkVar(l, c.Counters, c.Pattern, c.Limit, "replay")
+		return
+	}
+	var g giantCase
+	if mc.LoadReplay(chk.ReplayFile(), &g) == nil && g.Giant {
+		fmt.Printf("replay %+v\n", g)
+		r, b := giantRow()
+		giantOne(l, r, b, g)
 		return
 	}
 	var c recCase
